@@ -1,6 +1,7 @@
 package props
 
 import (
+	"os"
 	"fmt"
 	"go/types"
 	"regexp"
@@ -51,11 +52,11 @@ func C11(p *core.Program, r *core.Report) {
 
 	// ---- D1
 	nLoops := 0
-	for _, fn := range p.ModFunctions(false) {
+	for _, fn := range units(p) {
 		for _, ml := range findMapLoops(fn) {
 			nLoops++
 			c := core.NewCanon(p)
-			key := fmt.Sprintf("%s: range %s", core.ShortKey(fn), c.Of(ml.rng.X))
+			key := fmt.Sprintf("%s: range %s", unitName(p, fn), c.Of(ml.rng.X))
 			class, why := classifyMapLoop(p, ml)
 			r.Add("D1", key, p.Pos(ml.rng.Pos()), class != "", strings.TrimSpace(class+" "+why))
 		}
@@ -66,14 +67,14 @@ func C11(p *core.Program, r *core.Report) {
 
 	// ---- D2
 	nNow := 0
-	for _, fn := range p.ModFunctions(false) {
+	for _, fn := range units(p) {
 		for _, b := range fn.Blocks {
 			for _, in := range b.Instrs {
 				switch x := in.(type) {
 				case *ssa.Select:
-					r.Add("D2", core.ShortKey(fn)+": select", p.Pos(x.Pos()), false, "select chooses among ready channels nondeterministically")
+					r.Add("D2", unitName(p, fn)+": select", p.Pos(x.Pos()), false, "select chooses among ready channels nondeterministically")
 				case *ssa.Go:
-					r.Add("D2", core.ShortKey(fn)+": go statement", p.Pos(x.Pos()), false, "goroutine scheduling is a source of nondeterminism")
+					r.Add("D2", unitName(p, fn)+": go statement", p.Pos(x.Pos()), false, "goroutine scheduling is a source of nondeterminism")
 				case ssa.CallInstruction:
 					f := core.Callee(x)
 					if f == nil {
@@ -83,19 +84,19 @@ func C11(p *core.Program, r *core.Report) {
 					name := f.String()
 					switch {
 					case pp == "math/rand" || pp == "math/rand/v2" || pp == "crypto/rand":
-						r.Add("D2", core.ShortKey(fn)+": "+name, p.Pos(in.Pos()), false, "random numbers")
+						r.Add("D2", unitName(p, fn)+": "+name, p.Pos(in.Pos()), false, "random numbers")
 					case name == "os.Getenv" || name == "os.Environ" || name == "os.Hostname" || name == "os.Getpid" || name == "os.LookupEnv":
-						r.Add("D2", core.ShortKey(fn)+": "+name, p.Pos(in.Pos()), false, "environment dependent value")
+						r.Add("D2", unitName(p, fn)+": "+name, p.Pos(in.Pos()), false, "environment dependent value")
 					case name == "time.Now" || name == "time.Since":
 						nNow++
 						if v, ok := in.(ssa.Value); ok {
 							bad := timeLeaks(p, v)
-							r.Add("D2", fmt.Sprintf("%s: clock value #%d stays in timing data", core.ShortKey(fn), nthCall(fn, in, "time.")), p.Pos(in.Pos()), len(bad) == 0, "every use must be TimingInfo/TimingEntry, AddEntry, Sub/Since or a timing log call", bad...)
+							r.Add("D2", fmt.Sprintf("%s: clock value #%d stays in timing data", unitName(p, fn), nthCall(fn, in, "time.")), p.Pos(in.Pos()), len(bad) == 0, "every use must be TimingInfo/TimingEntry, AddEntry, Sub/Since or a timing log call", bad...)
 						}
 					case strings.HasPrefix(name, "fmt."):
 						if len(x.Common().Args) > 0 {
 							if s, ok := core.ConstString(x.Common().Args[0]); ok && strings.Contains(s, "%p") {
-								r.Add("D2", core.ShortKey(fn)+": pointer formatting", p.Pos(in.Pos()), false, "%p prints an address")
+								r.Add("D2", unitName(p, fn)+": pointer formatting", p.Pos(in.Pos()), false, "%p prints an address")
 							}
 						}
 					}
@@ -304,7 +305,8 @@ var setInsertHelpers = regexp.MustCompile(`webdoc\.(TextBlock\.AddLabels|Text\.A
 func classifyMapLoop(p *core.Program, ml mapLoop) (class, why string) {
 	fn := ml.fn
 	opts := core.DecisionOpts{
-		IterateAt: ml.header,
+		IterateAt:   ml.header,
+		ExitOutcome: "exit",
 		Outcome: func(in ssa.Instruction, c *core.Canon) (string, bool) {
 			if ret, ok := in.(*ssa.Return); ok {
 				var s []string
@@ -371,8 +373,8 @@ func classifyMapLoop(p *core.Program, ml mapLoop) (class, why string) {
 				}
 			}
 		}
-		if strings.HasPrefix(final, "return") {
-			rets[final] = true
+		if strings.HasPrefix(final, "return") || final == "exit" {
+			rets[final] = true // "exit": a break that continues behind the loop
 		}
 	}
 	onlyKinds := func(allowed ...string) bool {
@@ -392,12 +394,19 @@ func classifyMapLoop(p *core.Program, ml mapLoop) (class, why string) {
 		}
 		return true
 	}
+	// values carried from one iteration to the next: only order-insensitive accumulations are
+	// accepted automatically (a boolean set to a constant, an integer sum); a maximum with its
+	// position, a concatenation, "the last one seen" depend on the iteration order
+	acc, collectors := orderSensitiveAccumulators(ml)
+	if len(acc) > 0 {
+		return "", fmt.Sprintf("order-sensitive shape: the loop carries %v from one iteration to the next - list it in rules/exceptions.json with the reason it is benign, or iterate in sorted key order", acc)
+	}
 	// (a) only inserts into other maps / sets
-	if len(rets) == 0 && len(evKinds) > 0 && onlyKinds("mapinsert", "setinsert") {
+	if len(collectors) == 0 && len(rets) == 0 && len(evKinds) > 0 && onlyKinds("mapinsert", "setinsert") {
 		return "(a) body only inserts into another map or set", ""
 	}
 	// (b) pure scan with a single early-return constant
-	if len(evKinds) == 0 {
+	if len(evKinds) == 0 && len(collectors) == 0 {
 		if len(rets) == 0 {
 			return "(b) pure loop without effects or exits", ""
 		}
@@ -442,22 +451,158 @@ func classifyMapLoop(p *core.Program, ml mapLoop) (class, why string) {
 	return "", fmt.Sprintf("order-sensitive shape: effects %v, early exits %v - list it in rules/exceptions.json with the reason it is benign, or iterate in sorted key order", ks, rs)
 }
 
+// loopAccumulators returns the header phis of the map-range loop that are updated inside it.
+func loopAccumulators(ml mapLoop) []*ssa.Phi {
+	var out []*ssa.Phi
+	var lp *core.Loop
+	loops, _ := core.NaturalLoops(ml.fn)
+	for _, l := range loops {
+		if l.Header == ml.header {
+			lp = l
+		}
+	}
+	if lp == nil {
+		return nil
+	}
+	for _, in := range ml.header.Instrs {
+		ph, ok := in.(*ssa.Phi)
+		if !ok {
+			break
+		}
+		upd := false
+		for i, pred := range ml.header.Preds {
+			if lp.Body[pred] && ph.Edges[i] != ssa.Value(ph) {
+				upd = true
+			}
+		}
+		if upd {
+			out = append(out, ph)
+		}
+	}
+	return out
+}
+
+// orderSensitiveAccumulators: loop-carried values whose final value may depend on the order of
+// the iterations.
+func orderSensitiveAccumulators(ml mapLoop) (out []string, collectors []string) {
+	var lp *core.Loop
+	loops, _ := core.NaturalLoops(ml.fn)
+	for _, l := range loops {
+		if l.Header == ml.header {
+			lp = l
+		}
+	}
+	for _, ph := range loopAccumulators(ml) {
+		ok := true
+		for i, pred := range ml.header.Preds {
+			if lp == nil || !lp.Body[pred] {
+				continue
+			}
+			if !commutativeUpdate(ph.Edges[i], ph, lp, map[ssa.Value]bool{}) {
+				ok = false
+			}
+		}
+		if !ok {
+			name := ph.Comment
+			if name == "" {
+				name = ph.Name()
+			}
+			// a slice that only grows by append: the elements are collected in iteration order;
+			// acceptable only if the collection is sorted afterwards (class c)
+			isCollector := true
+			for i, pred := range ml.header.Preds {
+				if lp == nil || !lp.Body[pred] {
+					continue
+				}
+				if !appendUpdate(ph.Edges[i], ph, lp, map[ssa.Value]bool{}) {
+					isCollector = false
+				}
+			}
+			if isCollector {
+				collectors = append(collectors, name)
+				continue
+			}
+			out = append(out, name+" ("+ph.Type().String()+")")
+		}
+	}
+	sort.Strings(out)
+	return out, collectors
+}
+
+func appendUpdate(v ssa.Value, ph *ssa.Phi, lp *core.Loop, seen map[ssa.Value]bool) bool {
+	if v == ssa.Value(ph) || seen[v] {
+		return true
+	}
+	seen[v] = true
+	switch x := v.(type) {
+	case *ssa.Phi:
+		if !lp.Body[x.Block()] {
+			return false
+		}
+		for _, e := range x.Edges {
+			if !appendUpdate(e, ph, lp, seen) {
+				return false
+			}
+		}
+		return true
+	case *ssa.Call:
+		if b, ok := x.Call.Value.(*ssa.Builtin); ok && b.Name() == "append" {
+			return appendUpdate(x.Call.Args[0], ph, lp, seen)
+		}
+	}
+	return false
+}
+
+// commutativeUpdate: v is ph itself, a boolean/numeric constant assigned to a boolean flag, or
+// ph plus an integer (sum), through phis inside the loop.
+func commutativeUpdate(v ssa.Value, ph *ssa.Phi, lp *core.Loop, seen map[ssa.Value]bool) bool {
+	if v == ssa.Value(ph) || seen[v] {
+		return true
+	}
+	seen[v] = true
+	switch x := v.(type) {
+	case *ssa.Const:
+		_, isBool := core.ConstBool(x)
+		return isBool
+	case *ssa.Phi:
+		if !lp.Body[x.Block()] {
+			return false
+		}
+		for _, e := range x.Edges {
+			if !commutativeUpdate(e, ph, lp, seen) {
+				return false
+			}
+		}
+		return true
+	case *ssa.BinOp:
+		if x.Op.String() == "+" {
+			if bt, ok := x.Type().Underlying().(*types.Basic); ok && bt.Info()&types.IsInteger != 0 {
+				return commutativeUpdate(x.X, ph, lp, seen) || commutativeUpdate(x.Y, ph, lp, seen)
+			}
+		}
+	}
+	return false
+}
+
 // d1Lemmas checks the facts that the reviewed D1 exceptions rely on.
 func d1Lemmas(p *core.Program, r *core.Report) {
-	// isPageNumberSequence: the arg-max over mapSequenceEnd can only influence `nEmptyURL <= 1`,
-	// which holds anyway because the first scan rejects a second number without URL.
-	if fn := mustInl(p, r, "D1-lemma", "(*mod/internal/pagination/info.PageNumbersState).isPageNumberSequence"); fn != nil {
-		hs := loopHeaders(fn)
+	// ListLinkInfo.Evaluate (with the page-number-sequence test expanded): the arg-max over the
+	// map of consecutive runs can only influence `nEmptyURL <= 1`, which holds anyway because an
+	// earlier scan rejects a second number without URL.
+	if fn := mustInl(p, r, "D1-lemma", "(mod/internal/pagination/info.ListLinkInfo).Evaluate"); fn != nil {
 		ok := false
-		desc := "first loop not found"
-		if len(hs) >= 1 {
-			paths, _, _ := core.EnumerateDecisions(p, fn, core.DecisionOpts{IterateAt: hs[0], Outcome: func(in ssa.Instruction, c *core.Canon) (string, bool) {
+		desc := "no loop of Evaluate rejects a second page number without URL"
+		for _, h := range loopHeaders(fn) {
+			paths, _, _ := core.EnumerateDecisions(p, fn, core.DecisionOpts{IterateAt: h, ExitOutcome: "exit", Outcome: func(in ssa.Instruction, c *core.Canon) (string, bool) {
 				if ret, ok := in.(*ssa.Return); ok {
 					return "return " + c.Of(ret.Results[0]), true
 				}
 				return "", false
 			}})
 			for _, pa := range paths {
+				if os.Getenv("DDDEBUG") != "" {
+					fmt.Println("LEMMA1", pa.String())
+				}
 				hasEmpty, hasState := false, false
 				for _, l := range pa.Lits {
 					if strings.HasSuffix(l.Atom, `.URL == ""`) && l.Val {
@@ -467,21 +612,24 @@ func d1Lemmas(p *core.Program, r *core.Report) {
 						hasState = true
 					}
 				}
-				if hasEmpty && hasState && pa.Outcome == "return false" {
+				if hasEmpty && hasState && (pa.Outcome == "return false" || pa.Outcome == "return nil") {
 					ok = true
 					desc = pa.String()
 				}
 			}
 		}
-		r.Add("D1-lemma", "isPageNumberSequence rejects a second number without URL before choosing the longest run", p.Pos(fn.Pos()), ok, desc)
-		// and the chosen run is used for nothing but the count of empty URLs compared with 1
-		c := core.NewCanon(p)
-		for _, ret := range core.Returns(fn) {
-			s := c.Of(ret.Results[0])
-			if strings.Contains(s, "μ(") && !strings.Contains(s, " <= 1") && s != "false" && s != "true" {
-				r.Add("D1-lemma", "isPageNumberSequence: the order-dependent choice feeds only `nEmptyURL <= 1`", p.Pos(ret.Pos()), false, "returns "+s)
+		r.Add("D1-lemma", "Evaluate rejects a list with a second number without URL before choosing the longest run", p.Pos(fn.Pos()), ok, desc)
+		// and the chosen run is used for nothing but sub-slicing the list and comparisons `<= 1`
+		nAcc := 0
+		for _, ml := range findMapLoops(fn) {
+			for _, ph := range loopAccumulators(ml) {
+				nAcc++
+				if leak := orderLeak(ph); leak != "" {
+					r.Add("D1-lemma", "Evaluate: the order-dependent choice of the longest run feeds only `<= 1` tests", p.Pos(ml.rng.Pos()), false, leak)
+				}
 			}
 		}
+		r.Add("D1-lemma", "Evaluate: order-dependent accumulators of the longest-run search examined", p.Pos(fn.Pos()), nAcc >= 2, fmt.Sprintf("%d loop-carried values", nAcc))
 	}
 	// newDetectionStateFromMonotonicNumbers: the candidates are visited in map order; this is only
 	// tolerable if evaluating one candidate cannot change what the next one sees.
@@ -550,4 +698,133 @@ func d1Lemmas(p *core.Program, r *core.Report) {
 		}
 		r.Add("D1-lemma", "RelevantTagNames: its map-ordered result only feeds a set", p.Pos(fn.Pos()), okAll && n == 1, fmt.Sprintf("%s; %d call sites in the module", desc, n))
 	}
+}
+
+// orderLeak checks how the (order-dependent) result of the longest-run search is used after the
+// loop. Accepted: comparisons with the constants 0/1, and use as a bound of a sub-slice of a list,
+// provided that sub-slice is only read (len, element loads, comparisons) and the loops reading it
+// carry nothing but their index and integer counters whose values are, in turn, only compared with
+// 0/1. Anything else (a store, a call argument, a return, another computation) is a leak: a place
+// where the iteration order of the map could become visible.
+func orderLeak(start *ssa.Phi) string {
+	fn := start.Parent()
+	loops, _ := core.NaturalLoops(fn)
+	bodyOf := func(h *ssa.BasicBlock) map[*ssa.BasicBlock]bool {
+		for _, l := range loops {
+			if l.Header == h {
+				return l.Body
+			}
+		}
+		return nil
+	}
+	search := bodyOf(start.Block())
+	cmp01 := func(b *ssa.BinOp, v ssa.Value) bool {
+		switch b.Op.String() {
+		case "<", "<=", ">", ">=", "==", "!=":
+			other := b.Y
+			if other == v {
+				other = b.X
+			}
+			k, ok := core.ConstInt(other)
+			return ok && (k == 0 || k == 1)
+		}
+		return false
+	}
+	// read-only use of a slice value; collects the loops in which it is read
+	readLoops := map[*ssa.BasicBlock]bool{}
+	var readOnly func(v ssa.Value, seen map[ssa.Value]bool) string
+	readOnly = func(v ssa.Value, seen map[ssa.Value]bool) string {
+		if seen[v] {
+			return ""
+		}
+		seen[v] = true
+		refs := v.Referrers()
+		if refs == nil {
+			return ""
+		}
+		for _, ref := range *refs {
+			for _, l := range loops {
+				if l.Body[ref.Block()] {
+					readLoops[l.Header] = true
+				}
+			}
+			switch x := ref.(type) {
+			case *ssa.DebugRef, *ssa.If:
+			case *ssa.Call:
+				if b, ok := x.Call.Value.(*ssa.Builtin); !ok || (b.Name() != "len" && b.Name() != "cap") {
+					return "the chosen sub-list is passed to " + x.String()
+				}
+				if s := readOnly(x, seen); s != "" {
+					return s
+				}
+			case *ssa.IndexAddr, *ssa.Index, *ssa.FieldAddr, *ssa.Field, *ssa.BinOp, *ssa.Range, *ssa.Next, *ssa.Extract:
+				if s := readOnly(x.(ssa.Value), seen); s != "" {
+					return s
+				}
+			case *ssa.UnOp:
+				if s := readOnly(x, seen); s != "" {
+					return s
+				}
+			default:
+				return fmt.Sprintf("the chosen sub-list is used by %T (%s)", ref, ref.String())
+			}
+		}
+		return ""
+	}
+	refs := start.Referrers()
+	if refs == nil {
+		return ""
+	}
+	for _, ref := range *refs {
+		if search[ref.Block()] {
+			continue // part of the search itself
+		}
+		switch x := ref.(type) {
+		case *ssa.DebugRef:
+		case *ssa.BinOp:
+			if !cmp01(x, start) {
+				return "used in " + x.String()
+			}
+		case *ssa.Slice:
+			if x.Low != ssa.Value(start) && x.High != ssa.Value(start) {
+				return "sliced: " + x.String()
+			}
+			if s := readOnly(x, map[ssa.Value]bool{}); s != "" {
+				return s
+			}
+		default:
+			return fmt.Sprintf("used by %T (%s)", ref, ref.String())
+		}
+	}
+	// the loops that read the chosen sub-list carry only their index and 0/1-compared counters
+	for h := range readLoops {
+		body := bodyOf(h)
+		for _, in := range h.Instrs {
+			ph, ok := in.(*ssa.Phi)
+			if !ok {
+				break
+			}
+			if ph.Comment == "rangeindex" {
+				continue
+			}
+			if bt, ok := ph.Type().Underlying().(*types.Basic); !ok || bt.Info()&types.IsInteger == 0 {
+				return "a loop over the chosen sub-list carries " + ph.Comment + " (" + ph.Type().String() + ")"
+			}
+			if rs := ph.Referrers(); rs != nil {
+				for _, u := range *rs {
+					if body[u.Block()] {
+						continue
+					}
+					b, ok := u.(*ssa.BinOp)
+					if _, dbg := u.(*ssa.DebugRef); dbg {
+						continue
+					}
+					if !ok || !cmp01(b, ph) {
+						return "the count " + ph.Comment + " taken over the chosen sub-list is used in " + u.String()
+					}
+				}
+			}
+		}
+	}
+	return ""
 }
